@@ -714,20 +714,11 @@ NS_CREATE_RAISES = {'CIMError': Raises(post=[
     ('unless-the-default-provider-refused-nothing-was-written', f'implies(not {REFUSED}, {NSP_NOWRITE})'),
     ('status-codes-of-the-own-checks',
      f'implies(not {REFUSED}, exc.status_code in (CIM_ERR_INVALID_PARAMETER, CIM_ERR_ALREADY_EXISTS))')])}
-# (the KeyError of the discrepancy below is admitted HERE ONLY so that the other obligations are established on the unchanged tree)
-CONTRACTS.append(Contract(
-    N + 'CreateInstance',
-    raises=dict(NS_CREATE_RAISES, KeyError=Raises(post=[('nothing-was-written-when-the-call-raises', NSP_NOWRITE)])),
-    **NS_CREATE))
-REFUTED_ON_THE_UNCHANGED_TREE.append(Contract(
-    N + 'CreateInstance', label='only-CIMError-escapes', raises=NS_CREATE_RAISES,
-    **dict(NS_CREATE, notes=(
-        "GENUINE DISCREPANCY (new): a CreationClassName that does not match the class name is documented as "
-        "CIM_ERR_INVALID_PARAMETER, but the message template has the field '{2|A}' (for '{2!A}'): _format() raises "
-        "KeyError('2|A') and that escapes instead of the CIMError (refuted obligation: raises:KeyError@_format('Cannot create "
-        "instance of class {0!A} in namespace {1!A}: ...); nothing has been written at that point. Reproducer: namespace "
-        "provider registered in 'interop', CreateInstance(CIMInstance('CIM_Namespace', properties={..., "
-        "'CreationClassName': 'Wrong', 'Name': 'newns'}), namespace='interop') -> KeyError('2|A')"))))
+# Only CIMError escapes: the message template of the CreationClassName check had the field '{2|A}' for '{2!A}', so
+# _format() raised KeyError('2|A') where CIM_ERR_INVALID_PARAMETER is documented (refuted obligation
+# raises:KeyError@_format('Cannot create instance of class {0!A} in namespace {1!A}: ...) - repaired in /repo by a fix: commit
+# (known_findings.json, fixed: property=C10).  The contract admits no KeyError any more, so the defect is reported if it returns.
+CONTRACTS.append(Contract(N + 'CreateInstance', raises=NS_CREATE_RAISES, **NS_CREATE))
 REFUTED_ON_THE_UNCHANGED_TREE.append(Contract(
     N + 'CreateInstance', label='refusal-of-the-default-provider-not-excluded',
     raises={'CIMError': Raises(post=[('nothing-was-written-when-the-call-raises', NSP_NOWRITE)])},
